@@ -133,7 +133,7 @@ func c09Conserve(c *core.Check) {
 // handed to it — do not call the Unicode-wide helpers of the standard library.
 func c09CSSWhitespace(c *core.Check) {
 	p := c.Prog
-	r := c.Rule("R12", "white-space-only text is decided with the five CSS white space characters: no predicate used by boxes.isWhitespace (its default, and each function passed as its second argument) calls strings.TrimSpace, strings.Fields, strings.TrimFunc or unicode.IsSpace", 1)
+	r := c.Rule("R12", "white-space-only text is decided with the five CSS white space characters: no predicate used by boxes.isWhitespace (its default, and each function passed as its second argument) calls strings.TrimSpace, strings.Fields, strings.TrimFunc or unicode.IsSpace", 2)
 	iw := p.Fn("html/boxes", "isWhitespace")
 	if iw == nil {
 		r.Anchor("html/boxes.isWhitespace")
